@@ -195,7 +195,9 @@ def c01_cli_gen(seed, run, tier):
     cmds = []
     for _ in range(rng.randint(2, 5)):
         cmd = gen_cli.gen_command(rng, world, allow_f=False)
-        groups = [g for g in cmd["groups"] if not g[0].startswith("--list") and g[0] not in ("-hist", "-sort", "-leg", "-type", "-f")]
+        # (-obs declares another field to be the observations: a file lacking it is then legitimately scored
+        #  against the victim's values of that field, so such commands are not part of this relation)
+        groups = [g for g in cmd["groups"] if not g[0].startswith("--list") and g[0] not in ("-hist", "-sort", "-leg", "-type", "-f", "-obs")]
         if not any(g[0] == "-m" for g in groups):
             groups.append(["-m", "mae"])
         if rng.random() < 0.35:
@@ -262,7 +264,7 @@ def c01_cli_execute(spec, workdir):
     violation = None
     compared = 0
     for step, (case, oa, ob) in enumerate(zip(spec["cases"], outs[0], outs[1])):
-        if not (oa["ok"] and ob["ok"]):
+        if not (oa["ok"] and ob["ok"]) or "-obs" in case["argv"]:
             continue
         ta, tb = _table(oa["stdout"], n_files), _table(ob["stdout"], n_files)
         if len(ta) != len(tb) or any(len(x) != len(y) for x, y in zip(ta, tb)):
